@@ -1692,7 +1692,12 @@ func (p *parser) hoistSymbols(scope *js_ast.Scope) {
 					// Is this unbound (i.e. a global access) or also hoisted?
 					if existingSymbol.Kind == ast.SymbolUnbound || existingSymbol.Kind == ast.SymbolHoisted ||
 						(existingSymbol.Kind.IsFunction() && (s.Kind == js_ast.ScopeEntry || s.Kind == js_ast.ScopeFunctionBody)) {
-						// Silently merge this symbol into the existing symbol
+						// Silently merge this symbol into the existing symbol. The merged
+						// symbol takes its name from the existing symbol, so the existing
+						// symbol must not be renamed if this symbol must not be renamed.
+						if symbol.Flags.Has(ast.MustNotBeRenamed) {
+							existingSymbol.Flags |= ast.MustNotBeRenamed
+						}
 						symbol.Link = existingMember.Ref
 						s.Members[symbol.OriginalName] = existingMember
 						continue nextMember
@@ -1715,6 +1720,9 @@ func (p *parser) hoistSymbols(scope *js_ast.Scope) {
 
 					// If this is a catch identifier, silently merge the existing symbol
 					// into this symbol but continue hoisting past this catch scope
+					if existingSymbol.Flags.Has(ast.MustNotBeRenamed) {
+						symbol.Flags |= ast.MustNotBeRenamed
+					}
 					existingSymbol.Link = member.Ref
 					s.Members[symbol.OriginalName] = member
 				}
@@ -8765,7 +8773,11 @@ func (p *parser) findSymbol(loc logger.Loc, name string) findSymbolResult {
 	// property on the target object of the "with" statement. We must not rename
 	// it or we risk changing the behavior of the code.
 	if isInsideWithScope {
-		p.symbols[ref.InnerIndex].Flags |= ast.MustNotBeRenamed
+		// The symbol may have been merged into another symbol when it was hoisted,
+		// in which case its name comes from the symbol at the end of the chain
+		for link := ref; link != ast.InvalidRef; link = p.symbols[link.InnerIndex].Link {
+			p.symbols[link.InnerIndex].Flags |= ast.MustNotBeRenamed
+		}
 	}
 
 	// Track how many times we've referenced this symbol
